@@ -152,7 +152,9 @@ static Case gen_C16(const GenCtx &ctx) {
       // tall: the row loops hand out static chunks of 512 rows round-robin, so a thread only gets a SECOND chunk when there are
       // more than 512 * T rows; few columns keep it cheap and put the last block into every table-count band
       m = g::rng(1025, 2700);
-      n = g::rng(20, 330);
+      // mostly few columns (cheap, every table-count band in the last block); sometimes wide, so that a parallel region
+      // guarded by a work threshold (rows x remaining words) is still entered with a second chunk per thread
+      n = g::wpick<int>({{5, g::rng(20, 330)}, {1, g::rng(1400, 2400)}});
     }
     c.set("m", m).set("n", n).set("full", g::rng(0, 1));
     if (r == "mzd_echelonize_m4ri") c.set("k", g::rng(0, 8));
